@@ -19,16 +19,21 @@ class InvertedBooleanCheckTransformer(LibcstResultTransformer):
         if isinstance(updated_node.operator, cst.Not) and isinstance(
             (comparison := updated_node.expression), cst.Comparison
         ):
-            return self.report_new_comparison(original_node, comparison)
+            if len(comparison.comparisons) != 1:
+                # `not a == b == c` is not `a != b != c`: leave chained comparisons alone
+                return updated_node
+            new_node = self.report_new_comparison(original_node, comparison)
+            # The replacement takes the place of the `not ...` expression: keep the
+            # parentheses that were around it, e.g. `(not a == b) + 1`
+            return new_node.with_changes(
+                lpar=[*updated_node.lpar, *new_node.lpar],
+                rpar=[*new_node.rpar, *updated_node.rpar],
+            )
         return updated_node
 
     def report_new_comparison(
         self, original_node: cst.UnaryOperation, comparison: cst.Comparison
     ) -> cst.BaseExpression:
-        if len(comparison.comparisons) != 1:
-            # `not a == b == c` is not `a != b != c`: leave chained comparisons alone
-            return original_node
-
         if isinstance(comparison.comparisons[0].operator, cst.Is) and isinstance(
             comparison.comparisons[0].comparator, cst.Name
         ):
